@@ -1448,6 +1448,7 @@ where
                 ("nbr_channels", self.nbr_channels as u64),
                 ("chunk_size", self.chunk_size as u64),
                 ("max_chunk_size", self.max_chunk_size as u64),
+                ("current_buffer_fill", self.current_buffer_fill as u64),
                 ("last_index", self.last_index.to_bits()),
                 ("resample_ratio", self.resample_ratio.to_bits()),
                 (
